@@ -66,6 +66,13 @@ func runC14(c *core.Check) {
 		}
 		c.Nontrivial(e1.Render(v.Node, e1.Layout{}))
 	})
+	gapStage(c, func(src string, vec map[string]any) bool {
+		if !c14.CheckRanges(c, []byte(src), vec) {
+			return false
+		}
+		c14.CheckTiling(c, []byte(src), hcl.InitialPos, nil, vec)
+		return true
+	})
 	consts := map[string]string{"MaxItems": "2", "MaxL": "1", "LabelMode": "\"full\""}
 	r := core.TLCRun{Module: "MC_C02", Consts: consts, Timeout: minutes(30), KeepVars: []string{"closed", "out", "tree", "cost"}}
 	r.ConstSubst = map[string]string{"Values": "MCValuesFull"}
